@@ -9,6 +9,7 @@ use std::collections::{BTreeMap, HashMap};
 use std::io::Write;
 
 mod d_cf;
+mod d_cfexport;
 mod d_cfg;
 mod d_dlint;
 mod d_embed;
@@ -143,6 +144,7 @@ fn main() {
     "ws" => d_ws::run(&args),
     "fixsmall" => d_fixsmall::run(&args),
     "imp" => d_imp::run(&args),
+    "cfexport" => d_cfexport::run(&args),
     "txt" => d_txt::run(&args),
     "dlint" => d_dlint::run_all(&args),
     x => {
